@@ -32,6 +32,9 @@ CONSTANTS S, MaxT, MaxLen, MaxLag,    \* as in MSMObj
                                       \* and max_n_states at construction (the rest is reached by SetParam)
           Variants,                   \* TRUE: every entry point (set_params / attribute, name / callable, ctor / clone)
           Depth, Emit,
+          OpBudget,                   \* 0 = unlimited; k > 0: no operation kind more than k times in a history, so that
+                                      \* an enumerated / simulated history of length 5..9 is a life cycle (construct,
+                                      \* change, fit, refit, save, load, compare) rather than a run of SetParams
           (* ---- gates: classes on which the pinned tree deviates from the definition (FALSE = not generated) *)
           PersistMaxN,     \* save/load of an estimator with max_n_states # None: `config` (what save pickles) has no
                            \* max_n_states, the loaded estimator reports None and refits to a different shape
@@ -50,7 +53,7 @@ vars == <<trajs, obj, disk, res, hist, trail>>
 
 M == INSTANCE MSMObj WITH Emit <- FALSE, given <- <<>>, stored <- <<>>, fit <- <<>>, loaded <- <<>>, pc <- ""
 TM == INSTANCE TrimMapping WITH NOrig <- S + 1, NTrim <- S + 1, Slots <- 1, Files <- 1, MaxPairs <- 0, Depth <- 0,
-        Emit <- FALSE, Variants <- FALSE, EmptyFromFalsy <- FALSE, NonInjective <- FALSE, MalformedRows <- FALSE,
+        Emit <- FALSE, OpBudget <- 0, Variants <- FALSE, EmptyFromFalsy <- FALSE, NonInjective <- FALSE, MalformedRows <- FALSE,
         live <- {}, abs <- <<>>, conc <- <<>>, disk <- <<>>, res <- <<>>, hist <- <<>>, trail <- <<>>
 
 Names == {"a", "b"}
@@ -129,7 +132,8 @@ Init == /\ trajs \in (IF Data = {} THEN AllData ELSE {Catalogue[i] : i \in Data}
         /\ trail = <<Obs([a |-> Unbound, b |-> Unbound], NoDisk, NoRes)>>
 
 (* Log is the LAST conjunct of every action (all other primed variables are determined by then) *)
-Log(op) == /\ hist' = Append(hist, op)
+Log(op) == /\ (OpBudget = 0 \/ Cardinality({j \in DOMAIN hist : hist[j].op = op.op}) < OpBudget)
+           /\ hist' = Append(hist, op)
            /\ trail' = Append(trail, Obs(obj', disk', res'))
 CanStep == Len(hist) < Depth
 NewConfigs == IF AnyNew THEN Configs ELSE {c \in Configs : c.sliding /\ c.maxn = 0}
@@ -272,12 +276,6 @@ EqAgrees == \A x, y \in Names : (obj[x].live /\ obj[y].live) =>
 (* observers and failed operations change nothing *)
 ObserversPure == [][(Stepped /\ Op.op \in {"eq", "eqother", "describe", "save"}) => obj' = obj]_vars
 RejectedChangesNothing == [][res'.k = "raise" => (obj' = obj /\ disk' = disk)]_vars
-
-(* state constraint for simulated life cycles: no operation kind more than twice, so that a walk of length 9 is a
-   life cycle (construct, change, fit, refit, save, load, compare) rather than a run of SetParams *)
-Balanced2 == \A i \in DOMAIN hist : Cardinality({j \in DOMAIN hist : hist[j].op = hist[i].op}) <= 2
-(* ... and for exhaustively enumerated life cycles: every operation kind at most once *)
-Balanced1 == \A i, j \in DOMAIN hist : hist[i].op = hist[j].op => i = j
 
 (* ---- emission -------------------------------------------------------------------------------------------------------- *)
 HistView == <<trajs, obj, disk, res, Len(hist)>>
